@@ -111,27 +111,12 @@ SEG_KINDS = ('seg', 'seg_full_omit', 'seg_mem')
 SEG_TERM_KINDS = SEG_KINDS + ('seg_frames',)     # same model term: the library's cut = the caller's cut
 
 
-# OPEN DEFECT found by the img_hist kind (reported to the lead as D108, /tmp/wt/c04/repro_d.py): a tiled COLOUR image
-# stored as ONE frame cannot be read by get_total_pixel_matrix / get_frames once `.pixel_array` has been
-# accessed (ValueError "Expected an image of shape (R, C, 3)"): image.py 3741 / 1867 recognise "single frame" by
-# `pixel_array.ndim == 2`, which holds for grayscale only.  The configuration is drawn by the default generator
-# as soon as the finding is registered in KNOWN_FINDINGS.json (open -> reported as KNOWN-FINDING; fixed -> must pass).
-_D108 = 'D108'
-
-
-def _sig_d108(c):
-    return (c.get('kind') == 'img_hist' and c['samples'] == 3 and c['hist']['warm'] is not None and
-            (-(-c['R'] // c['th'])) * (-(-c['C'] // c['tw'])) == 1)
-
-
-def _d108_registered():
-    try:
-        return any(f.get('id') == _D108 for f in common.load_findings(PROPERTY))
-    except Exception:      # noqa
-        return False
-
-
-FINDINGS = {_D108: _sig_d108}    # D100 (tiled get_volume with the one-based end 0), found by this check, was fixed in /repo
+# D108 (found by the img_hist kind, fixed in /repo, commit c577ff1): a tiled COLOUR image stored as ONE frame could not
+# be read by get_total_pixel_matrix / get_frames once `.pixel_array` had been accessed (ValueError "Expected an image of
+# shape (R, C, 3)": "single frame" was recognised by `pixel_array.ndim == 2`, true for grayscale only).  The configuration
+# stays in the default img_hist stream (biased towards it) and in corpus/C04/d108_single_colour_frame_cached.json.
+# D100 (tiled get_volume with the one-based end 0), found by this check, was fixed in /repo as well.
+FINDINGS = {}
 
 
 # --------------------------------------------------------------------------
@@ -631,7 +616,9 @@ def _gen_seg_hist(rng):
 
 def _gen_img_hist(rng):
     R, C, th, tw = _sizes(rng)
-    samples = 3 if rng.random() < 0.25 else 1
+    samples = 3 if rng.random() < 0.3 else 1
+    if rng.random() < 0.12:
+        th, tw = R + rng.randint(0, 1), C + rng.randint(0, 1)       # ONE stored frame (D108 with 3 samples)
     full = rng.random() < 0.5
     nt = (-(-R // th)) * (-(-C // tw))
     drop = []
@@ -644,8 +631,6 @@ def _gen_img_hist(rng):
             'hist': {'src': rng.choice(['mem', 'mem', 'file', 'lazy']), 'warm': rng.choice([None, 0, 0, 1, 3]),
                      'scribble': rng.random() < 0.6,
                      'dtypes': [rng.choice([None, 'uint8', 'int64', 'float32']) for _ in regions]}}
-    if _sig_d108(c) and not _d108_registered():
-        c['samples'], c['px'] = 1, [[[p[0]] for p in row] for row in c['px']]      # see _D108 above
     return c
 
 
@@ -738,7 +723,7 @@ def gen_cases(rng, tier):
     for _ in range(90 * nrand):
         cases.append(_gen_seg_reads(rng))
     # ---- Segmentation(tile_pixel_array=True) + get_total_pixel_matrix ---------------
-    for _ in range(260 * nrand):
+    for _ in range(230 * nrand):
         R, C, th, tw = _sizes(rng)
         ty = rng.choice(['BINARY', 'BINARY', 'FRACTIONAL', 'LABELMAP'])
         nseg = rng.randint(1, 3)
